@@ -80,6 +80,27 @@ def push_chain_case(rng, vcs=None):
     return c
 
 
+def digit_clash_case(rng):
+    """thirteen states; two pop transitions whose (state, stack symbol, state) numbers read the same when written
+    without separators - (10+d, 1, k) and (1, d, 10+k) - on two different accepting paths"""
+    n = 13
+    d, k = rng.randrange(2), rng.randrange(3)
+    s0 = rng.choice([x for x in range(2, 10) if x != k])
+    la, lb = rng.sample([0, 1], 2)
+    trans = [[s0, -1, 0, 1, [d]],                 # path B: replace the start symbol by d, go to state 1
+             [1, lb, d, 10 + k, []],              #         pop d in state 1, reading lb, ending in state 10+k
+             [s0, la, 0, 10 + d, [1]],            # path A: read la, replace by 1, go to state 10+d
+             [10 + d, la, 1, k, []]]              #         pop 1 in state 10+d, reading la, ending in state k
+    used = {s0, 1, 10 + k, 10 + d, k}
+    for x in range(n):
+        if x not in used:
+            trans.append([x, 0, 0, x, [0]])      # every state number exists (unreachable loops): positions = numbers
+    c = {"n": n, "m": 2, "k": 2, "trans": trans, "start": s0, "zstart": 0, "finals": [], "vc": "int"}
+    if rng.random() < 0.5:
+        c["shuffle"] = rng.randrange(1 << 30)
+    return c
+
+
 def many_states_case(rng):
     """eleven to thirteen states (two-digit state numbers in anything numbered per state), few transitions, pushes of
     at most two symbols, mostly epsilon moves so that the accepted words stay short"""
